@@ -424,6 +424,9 @@ def r7(tree, rep):
 
 
 def run(tree, rep, tier):
+    from .. import round9 as _r9
+    _r9.parser_only_in_records_state(tree, rep, "C06.R10")
+    _r9.queued_waiters_not_cancellable(tree, rep, "C06.R11")
     # whatever goes wrong while a record is handled (a consumer / file that raises) reaches dataReceived's handler, which hangs up: no
     # except-clause on the way from dataReceivedRECORDS to the consumer swallows it
     from ..ctxmgr import swallowing_handlers
